@@ -280,7 +280,7 @@ func (r *c18CmRig) waitFor(timeout time.Duration, pred func() bool) (bool, strin
 	return true, r.line()
 }
 
-const c18CmQuiesce = 30 * time.Second // generous: only ever waited out when something is wrong
+const c18CmQuiesce = 12 * time.Second // generous: only ever waited out when something is wrong (the stream stops after the first time)
 
 // lockstepRun executes `conn …` op lines on the real manager and on the Lean machine.
 // Returns the number of ops executed.
@@ -411,6 +411,28 @@ func c18Lockstep(c *Ctx, l *lib.Lean, ops []string, caseName string) (int, error
 		okq, line := r.waitFor(c18CmQuiesce, func() bool { return r.line() == model })
 		c.R.TracesValidated++
 		if !okq {
+			// the property is judged on what IS observable before giving up: more connections and connection
+			// requests than the target is never legitimate. Let every waiting request connect and count.
+			r.mu.Lock()
+			nest, nwait := len(r.est), len(r.waiting)
+			var gates []*c18CmGate
+			if nest+nwait > effTarget {
+				gates = append(gates, r.waiting...)
+				r.waiting = nil
+			}
+			r.mu.Unlock()
+			if len(gates) > 0 {
+				for j, g := range gates {
+					g.ch <- c18CmGateResp{addr: 200 + j, ok: true}
+				}
+				r.waitFor(3*time.Second, func() bool { return r.nOpen >= nest+len(gates) })
+				r.mu.Lock()
+				held, dials := r.maxOpen, r.dials
+				r.mu.Unlock()
+				c.R.OracleChecked++
+				fail(i, "the connection manager holds more outbound connections at once than its target (it started more connection requests than it has free slots)",
+					fmt.Sprintf("at most %d connections", effTarget), fmt.Sprintf("%d connections open at once, %d dials; before the dials were released: %s", held, dials, line), "c18-target-exceeded")
+			}
 			c.R.Disagree(lib.Disagreement{Case: caseName, Ops: ops[:i+1], Op: op, Impl: line, Model: model})
 			return i, nil
 		}
@@ -462,6 +484,29 @@ func c18Lockstep(c *Ctx, l *lib.Lean, ops []string, caseName string) (int, error
 }
 
 // c18GenConnHistory: seeded lock-step script. style "noban" | "ban" | "banheavy" | "cancel".
+// c18GenDupDisc: duplicate and late Disconnect(id) for an id whose connection was already closed, while the
+// replacement dial is still held at the gate. One replacement per closed connection, never more than the target.
+func c18GenDupDisc(rng *rand.Rand, target int) []string {
+	ops := []string{fmt.Sprintf("conn new %d %d", target, rng.Intn(2))}
+	for i := 0; i < target; i++ {
+		ops = append(ops, fmt.Sprintf("conn ok 0 %d", rng.Intn(6)))
+	}
+	closed := 0
+	for round := 0; round < 4; round++ {
+		k := rng.Intn(target)
+		ops = append(ops, fmt.Sprintf("conn disc %d 1", k)) // closed; its replacement waits for an address
+		closed++
+		ops = append(ops, fmt.Sprintf("conn discold %d 1", closed-1)) // the same id again (duplicate)
+		if rng.Intn(2) == 0 {
+			ops = append(ops, "conn dump")
+		}
+		ops = append(ops, fmt.Sprintf("conn discold %d 1", rng.Intn(closed))) // a late one for this or an older id
+		ops = append(ops, fmt.Sprintf("conn ok 0 %d", rng.Intn(6)))           // the replacement connects
+		ops = append(ops, fmt.Sprintf("conn discold %d 1", closed-1))         // and a stale one afterwards
+	}
+	return append(ops, "conn dump")
+}
+
 func c18GenConnHistory(rng *rand.Rand, n int, style string) []string {
 	target := 1 + rng.Intn(8)
 	if rng.Intn(12) == 0 {
@@ -593,7 +638,15 @@ func c18FreeRun(c *Ctx, rng *rand.Rand, target int, ban bool, disconnects int) {
 		c.R.Fail(lib.Failure{Case: name, Ops: desc, What: what, Expected: exp, Observed: obs, Signature: sig})
 	}
 	reach := func(stage string) bool {
-		ok, line := r.waitFor(60*time.Second, func() bool { return len(r.est) == target })
+		ok, line := r.waitFor(60*time.Second, func() bool { return len(r.est) == target || r.maxOpen > target })
+		r.mu.Lock()
+		over := r.maxOpen > target
+		r.mu.Unlock()
+		if over {
+			c.R.OracleChecked++
+			fail("more connections open at once than TargetOutbound", fmt.Sprint("<= ", target), line, "c18-target-exceeded")
+			return false
+		}
 		c.R.OracleChecked++
 		if !ok {
 			r.mu.Lock()
